@@ -169,7 +169,8 @@ class C09:
     assumptions = ['the oracle is Python datetime (proleptic Gregorian, UTC); TZ=UTC for the executor',
                    'log renderer: read back as a calendar time, the rendered instant must be within 10^-dplaces of the true instant (truncation or rounding both allowed) and the seconds field must be in 00..59']
     rule = ('Instants 1970-01-01 .. 2099-12-31 23:59:59.999 at millisecond precision; quick: Hypothesis instants biased to month ends, Feb 28/29, '
-            'Dec 31/Jan 1, 2000-02-29, 2038-01-19 +- 1 day, 2099-12-31 (each case = 16 instants of one day); thorough: every day 1970..2099 '
+            'Dec 31/Jan 1, 2000-02-29, 2038-01-19 +- 1 day, 2099-12-31 (each case = 16 instants of one day, preceded on the same thread by a fixed instant or - in two cases out of three - by an instant of the '
+            'same calendar day in another year or of any other day); thorough: every day 1970..2099 '
             '(47 482, exhaustive over days) x 64 generated (second-of-day, ms). For each instant: UTCTimestamp print (21 chars) and parse of the 21- '
             'and 17-char forms, UTCTimeOnly, UTCDateOnly, LocalMktDate, MonthYear (6/8), and GetTimeAsStringMS at dplaces 0..9 with sub-second parts '
             'biased to .9995.., .99999999. Non-trivial: leap day, month/year boundary, year >= 2038, or a fraction that would round up the seconds.')
@@ -196,14 +197,32 @@ class C09:
             day = st.one_of(st.sampled_from(edges), st.integers(0, dmax))
         tod = st.one_of(st.sampled_from([0, MS_DAY - 1, 43200000, 59999, 3599999, 86399000]), st.integers(0, MS_DAY - 1))
         nsfrac = st.one_of(st.sampled_from([999500000, 999999999, 999999500, 999600000, 500000000, 0, 999949999, 1]), st.integers(0, 999999999))
+        # 'pre': an instant rendered just before the case's own day on the same thread - none, the same calendar day in another year (years ahead/back), or any day:
+        # whatever the renderer keeps between two calls is then part of the case and a failure replays from the case alone
+        pre = st.one_of(st.none(), st.tuples(st.just('year'), st.integers(-60, 60).filter(lambda k: k != 0)), st.tuples(st.just('day'), st.integers(0, dmax)))
         return st.fixed_dictionaries({'day': day, 'tods': st.lists(tod, min_size=16 if self.tier == 'quick' else 64, max_size=16 if self.tier == 'quick' else 64),
-                                      'ns': st.lists(nsfrac, min_size=4, max_size=4), 'dp': st.lists(st.integers(0, 9), min_size=4, max_size=4)})
+                                      'ns': st.lists(nsfrac, min_size=4, max_size=4), 'dp': st.lists(st.integers(0, 9), min_size=4, max_size=4), 'pre': pre})
 
     def run(self, case, ex):
         day = case['day']
         date = datetime.date(1970, 1, 1) + datetime.timedelta(days=day)
         mss = [day * MS_DAY + t for t in case['tods']]
         ticks = [ms * 1000000 for ms in mss]
+        pre = case.get('pre') or ('day', 11111)      # no generated predecessor: a fixed instant (2000-06-03) is rendered first, so that every case starts from the same renderer state
+        if pre is not None:
+            if pre[0] == 'year':
+                try:
+                    pd = date.replace(year=min(2099, max(1970, date.year + pre[1])))
+                except ValueError:          # Feb 29 in a year without one
+                    pd = date.replace(year=min(2099, max(1970, date.year + pre[1])), day=28)
+                pday = (pd - datetime.date(1970, 1, 1)).days
+            else:
+                pday = pre[1]
+            pms = pday * MS_DAY + case['tods'][0]
+            r0 = ex.call('tsfmt %d' % (pms * 1000000))[0]
+            want0 = ms_to_text(pms)[1]
+            if r0['with_ms'] != want0 or r0['date_only'] != want0[:8]:
+                raise Violation('C09: instant %s (ms %d) renders %r / %r' % (want0, pms, r0['with_ms'], r0['date_only']))
         res = ex.call('tsfmt ' + ' '.join(map(str, ticks)))
         texts = []
         for ms, r in zip(mss, res):
